@@ -106,10 +106,18 @@ def to_list_summary(I, st, args, kwargs, node):
     m = st.obj(val)
     if isinstance(m, MatrixObj):
         R, C, cell = m.rows, m.cols, m.cell
+        elem = m.elem
     else:
-        from pyvc.state import OutOfSubset
-        raise OutOfSubset("to_list summary needs a matrix value")
-    return st.alloc(MatrixObj(d0, d1, (lambda r, c, R=R, C=C, cell=cell: cell(r % R, c % C)), fresh=True, elem=m.elem))
+        # a list of rows (e.g. rows re-selected from a matrix): rectangular by construction, C = len(row 0)
+        R, g = sv
+        r0 = seq_view(st, g(IntVal(0)))
+        if r0 is None:
+            from pyvc.state import OutOfSubset
+            raise OutOfSubset("to_list summary needs a list of row lists")
+        C = r0[0]
+        cell = lambda r, c, g=g: seq_view(st, g(r))[1](c)
+        elem = None
+    return st.alloc(MatrixObj(d0, d1, (lambda r, c, R=R, C=C, cell=cell: cell(r % R, c % C)), fresh=True, elem=elem))
 
 
 class UpdateCell(Contract):
